@@ -1,144 +1,9 @@
-(* C17 at the model level: the full correctness statement of equal_m ([T1], NOT proved in
-   full: see docs/C17.md), what follows from it, the cases proved (null pointers, kind
-   mismatch, capabilities), and the F01 witnesses on the as-found variant. *)
-From CV Require Import Value.ValueEq Value.ValueEqProofs Value.EqualM Value.CanonSpec.
+(* C17 at the model level: witnesses.  The correctness theorem of equal_m is in
+   EqualCorrect.v (equal_m_correct and its corollaries).  Here: non-vacuity of [den], and the
+   defects F01 / O3 on the as-found variants of the model. *)
+From CV Require Import Value.ValueEq Value.ValueEqProofs Value.EqualM Value.CanonSpec Value.Den.
 Open Scope Z_scope.
 
-(* ------------------------------------------------------------------ the statement *)
-(* [p] in message [m] denotes [v]: a complete, error-free walk (caps large enough that
-   nothing is cut off) yields a tree whose value is v *)
-Definition denotes (c : config) (fx : fixes) (m : segs) (mid : Z) (caps : list Z) (p : Ptr) (v : value) : Prop :=
-  exists fuel rl rl' dcap pcap t,
-    524288 <= dcap /\ 65536 <= pcap /\
-    walk c fx m dcap pcap fuel rl (Ok p) = (t, rl') /\
-    tree_ok t = true /\ tree_small pcap t = true /\ v = denote mid caps t.
-
-(* every far pointer lands on a non-null word (a far pointer to a null word reads as null
-   through Struct.Ptr but as "has pointer" through Struct.HasPtr: observation O3) *)
-Definition far_ok (m : segs) : Prop :=
-  forall sid s paddr dsid dst base val raw,
-    resolveFarPointer true m sid s paddr = Ok (dsid, dst, base, val) ->
-    readRawPointer s paddr = Ok raw -> raw <> 0 -> val <> 0.
-
-Definition all_fixed (fx : efix) : Prop :=
-  fx_bitlist fx = true /\ fx_depth (fx_rd fx) = true /\ fx_upgrade (fx_rd fx) = true /\ fx_bit (fx_rd fx) = true.
-
-(* [T1] whenever Equal returns (b, nil), b is the documented equality of the two values *)
-Definition equal_m_correct_statement : Prop :=
-  forall fuel c fx w p q b w' va vb,
-    all_fixed fx -> far_ok (w_segs_of w SA) -> far_ok (w_segs_of w SB) ->
-    equal_m fuel c fx w p q = (EOk b, w') ->
-    denotes c (fx_rd fx) (w_segs_of w SA) 0 (w_caps_of w SA) p va ->
-    denotes c (fx_rd fx) (w_segs_of w SB) (if ew_same w then 0 else 1) (w_caps_of w SB) q vb ->
-    b = value_eq va vb.
-
-(* ------------------------------------------------------------------ what follows from it *)
-(* layout independence: two pointers (any layouts, any messages) denoting values that are
-   equal are Equal, whenever Equal answers at all *)
-Theorem equal_layout_independent_if : equal_m_correct_statement ->
-  forall fuel c fx w p q b w' va vb,
-    all_fixed fx -> far_ok (w_segs_of w SA) -> far_ok (w_segs_of w SB) ->
-    equal_m fuel c fx w p q = (EOk b, w') ->
-    denotes c (fx_rd fx) (w_segs_of w SA) 0 (w_caps_of w SA) p va ->
-    denotes c (fx_rd fx) (w_segs_of w SB) (if ew_same w then 0 else 1) (w_caps_of w SB) q vb ->
-    value_eq va vb = true -> b = true.
-Proof. intros Hm * Hf Ha Hb He Hp Hq Hv. rewrite <- Hv. eapply Hm; eauto. Qed.
-
-(* reflexivity: a pointer compared with itself (same message) *)
-Theorem equal_refl_if : equal_m_correct_statement ->
-  forall fuel c fx w p b w' v,
-    all_fixed fx -> ew_same w = true -> far_ok (w_segs_of w SA) ->
-    equal_m fuel c fx w p p = (EOk b, w') ->
-    denotes c (fx_rd fx) (w_segs_of w SA) 0 (w_caps_of w SA) p v ->
-    b = true.
-Proof.
-  intros Hm * Hf Hs Ha He Hp. rewrite <- (value_eq_refl v).
-  assert (E : w_segs_of w SB = w_segs_of w SA) by (unfold w_segs_of, on_a; rewrite Hs; reflexivity).
-  assert (E2 : w_caps_of w SB = w_caps_of w SA) by (unfold w_caps_of, on_a; rewrite Hs; reflexivity).
-  eapply Hm; eauto.
-  - rewrite E. exact Ha.
-  - rewrite E, E2, Hs. exact Hp.
-Qed.
-
-(* symmetry: swapping the arguments gives the same answer (both pointers in one message; across
-   two messages the roles of A and B are exchanged as well, same argument) *)
-Theorem equal_sym_if : equal_m_correct_statement ->
-  forall fuel c fx w p q b1 b2 w1 w2 va vb,
-    all_fixed fx -> ew_same w = true -> far_ok (w_segs_of w SA) ->
-    equal_m fuel c fx w p q = (EOk b1, w1) ->
-    equal_m fuel c fx w q p = (EOk b2, w2) ->
-    denotes c (fx_rd fx) (w_segs_of w SA) 0 (w_caps_of w SA) p va ->
-    denotes c (fx_rd fx) (w_segs_of w SA) 0 (w_caps_of w SA) q vb ->
-    b1 = b2.
-Proof.
-  intros Hm * Hf Hs Ha H1 H2 Hp Hq.
-  assert (E : w_segs_of w SB = w_segs_of w SA) by (unfold w_segs_of, on_a; rewrite Hs; reflexivity).
-  assert (E2 : w_caps_of w SB = w_caps_of w SA) by (unfold w_caps_of, on_a; rewrite Hs; reflexivity).
-  rewrite (Hm _ _ _ _ _ _ _ _ va vb Hf Ha ltac:(rewrite E; exact Ha) H1 Hp ltac:(rewrite E, E2, Hs; exact Hq)).
-  rewrite (Hm _ _ _ _ _ _ _ _ vb va Hf Ha ltac:(rewrite E; exact Ha) H2 Hq ltac:(rewrite E, E2, Hs; exact Hp)).
-  apply value_eq_sym.
-Qed.
-
-(* ------------------------------------------------------------------ cases proved *)
-(* a null pointer is Equal to null only *)
-Theorem equal_m_null_partial : forall f c fx w p q,
-  p_valid p = false ->
-  equal_m (S f) c fx w p q = (EOk (negb (p_valid q)), w)
-  /\ equal_m (S f) c fx w q p = (EOk (negb (p_valid q)), w).
-Proof.
-  intros f c fx w p q Hp. cbn [equal_m]. rewrite Hp. cbn [negb andb orb].
-  destruct (p_valid q); cbn; split; reflexivity.
-Qed.
-
-(* ... and so is the value: a complete walk of a valid pointer never yields VNull *)
-Lemma walk_valid_not_null : forall c fx m dcap pcap fuel rl p t rl' mid caps,
-  p_valid p = true -> walk c fx m dcap pcap fuel rl (Ok p) = (t, rl') -> tree_ok t = true ->
-  is_null (denote mid caps t) = false.
-Proof.
-  intros c fx m dcap pcap fuel rl p t rl' mid caps Hv Hw Ht.
-  destruct fuel as [|f]; cbn [walk] in Hw; rewrite Hv in Hw; cbn [negb] in Hw.
-  - inversion Hw; subst. discriminate.
-  - destruct (p_kind p).
-    + destruct (collect _ _ _) as [data| |]; try (inversion Hw; subst; discriminate).
-      destruct (iter_rl _ _ _ _) as [ps rl1]. inversion Hw; subst. reflexivity.
-    + destruct (p_bit p).
-      * destruct (collect _ _ _) as [bs| |]; inversion Hw; subst; try discriminate; reflexivity.
-      * destruct (p_comp p).
-        -- destruct (iter_rl _ _ _ _) as [es rl1]. inversion Hw; subst. reflexivity.
-        -- destruct (0 <? PointerCount (p_size p)).
-           ++ destruct (iter_rl _ _ _ _) as [es rl1]. inversion Hw; subst. reflexivity.
-           ++ destruct (DataSize (p_size p) =? 0); [inversion Hw; subst; reflexivity|].
-              destruct (collect _ _ _) as [vs| |]; inversion Hw; subst; try discriminate; reflexivity.
-    + inversion Hw; subst. reflexivity.
-Qed.
-
-(* capabilities: Equal's interface case is the capability identity of the values *)
-Theorem equal_m_iface_partial : forall f c fx w p q,
-  is_iface p = true -> is_iface q = true -> 0 <= p_len p -> 0 <= p_len q ->
-  equal_m (S f) c fx w p q =
-  (EOk (value_eq (denote 0 (w_caps_of w SA) (TCap (p_len p)))
-                 (denote (if ew_same w then 0 else 1) (w_caps_of w SB) (TCap (p_len q)))), w).
-Proof.
-  intros f c fx w p q Hp Hq H0p H0q. unfold is_iface in *.
-  apply andb_prop in Hp. destruct Hp as [Hvp Hkp]. apply andb_prop in Hq. destruct Hq as [Hvq Hkq].
-  cbn [equal_m]. rewrite Hvp, Hvq. cbn [negb andb orb].
-  destruct (p_kind p); try discriminate. destruct (p_kind q); try discriminate.
-  f_equal. f_equal. cbn [denote]. unfold value_eq. cbn [veq]. unfold iface_equal, cap_eq, mk_capv. cbn [cv_msg cv_idx cv_intab cv_client].
-  unfold w_caps_of, on_a. destruct (ew_same w) eqn:Es; cbn [orb andb Z.eqb].
-  - unfold client_of.
-    destruct (p_len p =? p_len q) eqn:E1; [reflexivity|]. cbn [orb].
-    assert (Hza : 0 <= zlen (ew_caps_a w)) by (unfold zlen; lia).
-    destruct (p_len p >=? zlen (ew_caps_a w)) eqn:E2; destruct (p_len q >=? zlen (ew_caps_a w)) eqn:E3; cbn [orb].
-    + replace (p_len p <? zlen (ew_caps_a w)) with false by lia. rewrite andb_false_r. reflexivity.
-    + replace (p_len p <? zlen (ew_caps_a w)) with false by lia. rewrite andb_false_r. reflexivity.
-    + replace (p_len q <? zlen (ew_caps_a w)) with false by lia. rewrite !andb_false_r. reflexivity.
-    + replace (0 <=? p_len p) with true by lia. replace (0 <=? p_len q) with true by lia.
-      replace (p_len p <? zlen (ew_caps_a w)) with true by lia. replace (p_len q <? zlen (ew_caps_a w)) with true by lia.
-      reflexivity.
-  - unfold client_of. reflexivity.
-Qed.
-
-(* ------------------------------------------------------------------ F01: the code as found *)
 Definition wbytes (ws : list Z) : list Z := flat_map (le_encode 8) ws.
 (* root struct with one pointer: a 3-element bit list / void list *)
 Definition msg_bits (b : Z) : segs := [wbytes [struct_word 0 0 1; list_word 0 1 3; b]].
@@ -146,19 +11,49 @@ Definition msg_void : segs := [wbytes [struct_word 0 0 1; list_word 0 0 3]].
 Definition cfg0 := mkCfg 0 0 true true.
 Definition rdfix := mkFix true true true.
 Definition eq_res (r : eout * Z * Z) : eout := fst (fst r).
+Definition asfound_e := mkEFix false false rdfix.
+Definition repaired_e := mkEFix true true rdfix.
 
+(* ------------------------------------------------------------------ den is inhabited *)
+Example den_example :
+  exists p, fst (root cfg0 (msg_bits 5) 1000) = Ok p
+            /\ den true (msg_bits 5) 0 [] p (VStruct [] [VBits [true; false; true]]).
+Proof.
+  eexists. split; [vm_compute; reflexivity|].
+  change (@nil Z) with (words_of_bytes []).
+  eapply den_struct; try reflexivity.
+  - unfold wf_size. cbn. lia.
+  - intros i Hi. cbn in Hi. assert (i = 0) by lia. subst i.
+    exists 1, 1000. eexists. eexists. split; [vm_compute; reflexivity|].
+    change [true; false; true] with (bits_of (Z.to_nat 3) [5]).
+    apply den_bits; try reflexivity. cbn. lia.
+Qed.
+
+(* ------------------------------------------------------------------ F01: the code as found *)
 (* as found: bit lists that differ are Equal, and a bit list is Equal to a void list of the
    same length, against the documented equality of the walked trees *)
 Example equal_prefix_refuted :
-  eq_res (run_equal 20 cfg0 cfg0 (mkEFix false rdfix) (msg_bits 5) [] (msg_bits 2) [] false SelRoot SelRoot) = EOk true
+  eq_res (run_equal 20 cfg0 cfg0 asfound_e (msg_bits 5) [] (msg_bits 2) [] false SelRoot SelRoot) = EOk true
   /\ fst (fst (spec_equal 20 cfg0 cfg0 rdfix (msg_bits 5) [] (msg_bits 2) [] false SelRoot SelRoot 1024 64)) = Some false
-  /\ eq_res (run_equal 20 cfg0 cfg0 (mkEFix false rdfix) (msg_bits 5) [] msg_void [] false SelRoot SelRoot) = EOk true
+  /\ eq_res (run_equal 20 cfg0 cfg0 asfound_e (msg_bits 5) [] msg_void [] false SelRoot SelRoot) = EOk true
   /\ fst (fst (spec_equal 20 cfg0 cfg0 rdfix (msg_bits 5) [] msg_void [] false SelRoot SelRoot 1024 64)) = Some false.
 Proof. vm_compute. repeat split. Qed.
 
 (* repaired: the same inputs are unequal; equal bits with different padding are Equal *)
 Example equal_fixed_witness :
-  eq_res (run_equal 20 cfg0 cfg0 (mkEFix true rdfix) (msg_bits 5) [] (msg_bits 2) [] false SelRoot SelRoot) = EOk false
-  /\ eq_res (run_equal 20 cfg0 cfg0 (mkEFix true rdfix) (msg_bits 5) [] msg_void [] false SelRoot SelRoot) = EOk false
-  /\ eq_res (run_equal 20 cfg0 cfg0 (mkEFix true rdfix) (msg_bits 5) [] (msg_bits (5 + 128)) [] false SelRoot SelRoot) = EOk true.
+  eq_res (run_equal 20 cfg0 cfg0 repaired_e (msg_bits 5) [] (msg_bits 2) [] false SelRoot SelRoot) = EOk false
+  /\ eq_res (run_equal 20 cfg0 cfg0 repaired_e (msg_bits 5) [] msg_void [] false SelRoot SelRoot) = EOk false
+  /\ eq_res (run_equal 20 cfg0 cfg0 repaired_e (msg_bits 5) [] (msg_bits (5 + 128)) [] false SelRoot SelRoot) = EOk true.
+Proof. vm_compute. repeat split. Qed.
+
+(* ------------------------------------------------------------------ O3: the code as found *)
+(* struct with pointers [null; far pointer to a null landing pad]  vs  struct with [null]:
+   the values are equal (both pointers read as null); as found Equal says false *)
+Definition msg_farnull : segs := [wbytes [struct_word 0 0 2; 0; 2 + 3 * 8; 0]].
+Definition msg_onenull : segs := [wbytes [struct_word 0 0 1; 0]].
+
+Example equal_farnull_prefix_refuted :
+  eq_res (run_equal 20 cfg0 cfg0 (mkEFix true false rdfix) msg_farnull [] msg_onenull [] false SelRoot SelRoot) = EOk false
+  /\ fst (fst (spec_equal 20 cfg0 cfg0 rdfix msg_farnull [] msg_onenull [] false SelRoot SelRoot 1024 64)) = Some true
+  /\ eq_res (run_equal 20 cfg0 cfg0 repaired_e msg_farnull [] msg_onenull [] false SelRoot SelRoot) = EOk true.
 Proof. vm_compute. repeat split. Qed.
